@@ -184,7 +184,7 @@ def run(ctx):
             ctx.violation(key, detail + " | run seed %d" % out["seed"], {"world": "loop", "seed": out["seed"], "key": key})
     n_exc = sum(1 for o in lres if o["exc"])
     if n_exc > 0.25 * len(lres):
-        raise runner.HarnessError("%d of %d simulated runs raised; the run-loop half cannot be judged (see C19)" % (n_exc, len(lres)))
+        ctx.cannot_judge("%d of %d simulated runs raised; the run-loop half cannot be judged (see C19)" % (n_exc, len(lres)))
     ctx.cov["evaluations"] = tot + len(lres)
     ctx.cov["distinct_nontrivial"] = len(sig)
     ctx.cov["device_level_tuples"] = tot
